@@ -22,16 +22,26 @@ type pathCand struct {
 	Path []string
 	Leaf reflect.Type // declared type at the end; for Dyn paths the type the benign dynamic value will have
 	// source side
-	Dyn     bool         // the path continues below an interface-typed field: only checkable at run time
-	IfaceT  reflect.Type // declared type of that interface-typed field
-	Need    reflect.Type // Dyn only: the dynamic type the interface must hold for the path to exist (nil: any benign container)
-	IfaceAt int          // len of the prefix that ends at the interface-typed field the path passes through or ends at (-1: none)
+	Dyn     bool         // the path continues below an interface-typed position: only checkable at run time
+	IfaceT  reflect.Type // declared type of the first interface-typed position
+	IfaceAt int          // len of the prefix that ends at the first interface-typed position the path passes through or ends at (-1: none)
+	Ifaces  []int        // Dyn: len of every prefix that ends at an interface-typed position which the path continues through
+	IfaceTs []reflect.Type // Dyn: declared (interface) type of each of them
+	Roles   []roleReq    // dynamic types that interface-typed positions must hold for the path to exist / the value to fit the target
 	PtrAt   int          // len of the first prefix that ends at a pointer which the path continues through (-1: none); 0 = the root value
 	MapAt   int          // len of the first prefix that ends at a map in which the path looks up a key (-1: none); 0 = the root value
 	Nested  bool         // passes through a pointer to pointer
 	// target side
 	StructEntry string // joined prefix that ends at an entry of a map with struct (non-pointer) elements below which the path continues
 	Shape       string // container kinds along the path: S struct field, M map key, A any hole, P pointer deref
+}
+
+// roleReq: the interface-typed position At (a path inside the predecessor output,
+// possibly through the dynamic values of outer interface positions) holds a value of
+// dynamic type Typ in the benign case.
+type roleReq struct {
+	At  []string
+	Typ reflect.Type
 }
 
 func joinPath(p []string) string { return strings.Join(p, ".") }
@@ -93,40 +103,6 @@ func enumPaths(t reflect.Type, source bool, maxDepth int) []pathCand {
 					cc.StructEntry = joinPath(clonePath(cur.Path, k))
 				}
 				emit(k, t.Elem(), "M", cc)
-			}
-		case t.Kind() == reflect.Interface && source:
-			// below an interface-typed source field: the benign dynamic values offer S string and N int
-			if cur.Dyn {
-				return
-			}
-			c := cur
-			c.Dyn = true
-			c.IfaceAt = len(cur.Path)
-			c.IfaceT = t
-			for _, f := range []struct {
-				n string
-				t reflect.Type
-			}{{"S", tString}, {"N", tInt}} {
-				cc := c
-				cc.Path = clonePath(cur.Path, f.n)
-				cc.Leaf = f.t
-				cc.Shape = shape + "I"
-				out = append(out, cc)
-			}
-			// two levels below the interface: the dynamic value must be a *Mid
-			if len(cur.Path)+2 <= maxDepth {
-				for _, f := range []struct {
-					a, b string
-					t    reflect.Type
-					k    string
-				}{{"L", "S", tString, "IS"}, {"PL", "N", tInt, "IPS"}, {"MS", "k1", tString, "IM"}, {"MA", "k1", tAny, "IM"}} {
-					cc := c
-					cc.Path = clonePath(cur.Path, f.a, f.b)
-					cc.Leaf = f.t
-					cc.Need = tPMid
-					cc.Shape = shape + f.k
-					out = append(out, cc)
-				}
 			}
 		case t == tAny && !source:
 			for _, k := range mapKeys {
@@ -351,25 +327,134 @@ func deleteKey(root reflect.Value, path []string) bool {
 	return false
 }
 
+// srcPlace stores val at path inside the predecessor output root (addressable). Pointers
+// and interfaces are looked through; struct values held by an interface or stored in a
+// map are copied, changed and written back. Nothing is instantiated on the way.
+func srcPlace(root reflect.Value, path []string, val any) error {
+	nv, err := placed(root, path, val)
+	if err != nil {
+		return err
+	}
+	root.Set(nv)
+	return nil
+}
+
+func placed(cur reflect.Value, path []string, val any) (reflect.Value, error) {
+	t := cur.Type()
+	if len(path) == 0 {
+		if val == nil {
+			if !nillable(t) {
+				return cur, fmt.Errorf("nil cannot be held by %v", t)
+			}
+			return reflect.Zero(t), nil
+		}
+		vv := reflect.ValueOf(val)
+		if !vv.Type().AssignableTo(t) {
+			return cur, fmt.Errorf("value of type %v cannot be held by %v", vv.Type(), t)
+		}
+		out := reflect.New(t).Elem()
+		out.Set(vv)
+		return out, nil
+	}
+	switch cur.Kind() {
+	case reflect.Interface:
+		if cur.IsNil() {
+			return cur, fmt.Errorf("nil interface before %v", path)
+		}
+		inner, err := placed(cur.Elem(), path, val)
+		if err != nil {
+			return cur, err
+		}
+		out := reflect.New(t).Elem()
+		out.Set(inner)
+		return out, nil
+	case reflect.Ptr:
+		if cur.IsNil() {
+			return cur, fmt.Errorf("nil pointer before %v", path)
+		}
+		inner, err := placed(cur.Elem(), path, val)
+		if err != nil {
+			return cur, err
+		}
+		cur.Elem().Set(inner)
+		return cur, nil
+	case reflect.Struct:
+		cp := reflect.New(t).Elem()
+		cp.Set(cur)
+		f := cp.FieldByName(path[0])
+		if !f.IsValid() {
+			return cur, fmt.Errorf("no field %s in %v", path[0], t)
+		}
+		inner, err := placed(f, path[1:], val)
+		if err != nil {
+			return cur, err
+		}
+		f.Set(inner)
+		return cp, nil
+	case reflect.Map:
+		if t.Key().Kind() != reflect.String || cur.IsNil() {
+			return cur, fmt.Errorf("cannot descend into %v", t)
+		}
+		k := reflect.ValueOf(path[0]).Convert(t.Key())
+		e := cur.MapIndex(k)
+		if !e.IsValid() {
+			return cur, fmt.Errorf("no key %s", path[0])
+		}
+		inner, err := placed(e, path[1:], val)
+		if err != nil {
+			return cur, err
+		}
+		cur.SetMapIndex(k, inner)
+		return cur, nil
+	}
+	return cur, fmt.Errorf("cannot descend into %v", t)
+}
+
 // ---- generation ------------------------------------------------------------------------
 
-// roleCompatible: may the interface-typed position that already has role `have`
-// (nil: a benign container offering S and N; else: a value of exactly that type)
-// also serve source candidate sc feeding a target of declared type lt?
-func roleCompatible(have reflect.Type, sc pathCand, lt reflect.Type) bool {
-	offersSN := have == nil || have == tLeaf || have == tPLeaf || have == tPMid
-	switch {
-	case sc.Dyn && sc.Need != nil:
-		return have == nil || have == sc.Need
-	case sc.Dyn:
-		return offersSN
-	case lt.Kind() != reflect.Interface:
-		return have == lt
-	case lt == tShape:
-		return have == nil || have.Implements(tShape)
-	default:
-		return true
+// dynUniverse: the dynamic types a benign interface-typed source position may hold
+// when a path continues below it.
+func dynUniverse(it reflect.Type) []reflect.Type {
+	if it == tShape {
+		return []reflect.Type{tLeaf, tPLeaf, tPMid}
 	}
+	return []reflect.Type{tLeaf, tPLeaf, tMid, tPMid, tTop, tPTop, tMapAny, tMapStr, tMapL, tMapPL, tMapM, tMapPM}
+}
+
+var shapeImpls = []reflect.Type{tLeaf, tPLeaf, tPMid}
+
+func walkable(t reflect.Type) bool {
+	if t.Kind() == reflect.Ptr {
+		t = t.Elem()
+	}
+	return t.Kind() == reflect.Struct || (t.Kind() == reflect.Map && t.Key().Kind() == reflect.String)
+}
+
+func roleKey(pi int, at []string) string { return fmt.Sprintf("%d#%s", pi, joinPath(at)) }
+
+// composeDyn: the source candidate that follows base (which ends at an interface-typed
+// position) and continues with sub inside a dynamic value of type d held there.
+func composeDyn(base pathCand, d reflect.Type, sub pathCand) pathCand {
+	c := base
+	n := len(base.Path)
+	c.Path = clonePath(base.Path, sub.Path...)
+	c.Leaf = sub.Leaf
+	if !base.Dyn {
+		c.IfaceAt = n
+		c.IfaceT = base.Leaf
+	}
+	c.Dyn = true
+	c.Ifaces = append(append([]int(nil), base.Ifaces...), n)
+	c.IfaceTs = append(append([]reflect.Type(nil), base.IfaceTs...), base.Leaf)
+	c.Roles = append(append([]roleReq(nil), base.Roles...), roleReq{At: clonePath(base.Path), Typ: d})
+	c.Shape = base.Shape + "I" + sub.Shape
+	if c.PtrAt < 0 && sub.PtrAt > 0 {
+		c.PtrAt = n + sub.PtrAt
+	}
+	if c.MapAt < 0 && sub.MapAt >= 0 {
+		c.MapAt = n + sub.MapAt
+	}
+	return c
 }
 
 func assignableStatic(st, lt reflect.Type) bool {
@@ -385,7 +470,10 @@ func assignableStatic(st, lt reflect.Type) bool {
 	return false
 }
 
-const maxDepthSrc, maxDepthTgt = 4, 4
+const maxDepthSrc, maxDepthTgt = 4, 5
+
+// maxDynLen: longest source path that continues below interface-typed positions.
+const maxDynLen = 6
 
 func genCase(r *mon.Rand) *Case {
 	for {
@@ -442,14 +530,107 @@ func tryGenCase(r *mon.Rand) *Case {
 		nm = 1
 	}
 	tcs := enumPaths(c.Tgt, false, maxDepthTgt)
-	roles := map[string]reflect.Type{} // pred#ifacePath -> required dynamic type (nil: benign container)
+	roles := map[string]reflect.Type{} // pred#path of an interface-typed position -> the dynamic type it holds
 
+	// finish: may source candidate sc (of predecessor pi) feed a target of declared type lt? Adds the
+	// role of the interface-typed position the candidate ends at and checks every role against those
+	// already fixed by earlier mappings.
+	finish := func(pi int, sc pathCand, lt reflect.Type) (pathCand, bool) {
+		leaf := sc.Leaf
+		if leaf.Kind() != reflect.Interface {
+			if !assignableStatic(leaf, lt) {
+				return sc, false
+			}
+		} else {
+			have, fixed := roles[roleKey(pi, sc.Path)]
+			switch {
+			case lt.Kind() != reflect.Interface:
+				if !lt.Implements(leaf) {
+					return sc, false
+				}
+				sc.Roles = append(append([]roleReq(nil), sc.Roles...), roleReq{At: clonePath(sc.Path), Typ: lt})
+			case lt == leaf || leaf.Implements(lt):
+				// whatever the position holds fits
+			case fixed:
+				if !have.Implements(lt) {
+					return sc, false
+				}
+			default:
+				// an `any` position feeding a Shape target: it has to hold an implementation
+				sc.Roles = append(append([]roleReq(nil), sc.Roles...), roleReq{At: clonePath(sc.Path), Typ: shapeImpls[r.Intn(len(shapeImpls))]})
+			}
+		}
+		for _, rq := range sc.Roles {
+			if have, ok := roles[roleKey(pi, rq.At)]; ok && have != rq.Typ {
+				return sc, false
+			}
+		}
+		return sc, true
+	}
+	// dynExtend continues base (ending at an interface-typed position) inside a dynamic value, through
+	// at most `levels` interface-typed positions, until a position that can feed lt.
+	var dynExtend func(pi int, base pathCand, lt reflect.Type, levels int) (pathCand, bool)
+	dynExtend = func(pi int, base pathCand, lt reflect.Type, levels int) (pathCand, bool) {
+		budget := maxDynLen - len(base.Path)
+		if budget < 1 {
+			return base, false
+		}
+		var d reflect.Type
+		if have, ok := roles[roleKey(pi, base.Path)]; ok {
+			d = have
+		} else {
+			for _, rq := range base.Roles {
+				if joinPath(rq.At) == joinPath(base.Path) {
+					d = rq.Typ
+				}
+			}
+		}
+		if d == nil {
+			u := dynUniverse(base.Leaf)
+			d = u[r.Intn(len(u))]
+		}
+		if !walkable(d) {
+			return base, false
+		}
+		depth := r.Range(1, 3)
+		if depth > budget {
+			depth = budget
+		}
+		var ends, nests []pathCand
+		for _, sub := range enumPaths(d, true, depth) {
+			if sub.Nested {
+				continue
+			}
+			cc := composeDyn(base, d, sub)
+			if fin, ok := finish(pi, cc, lt); ok {
+				ends = append(ends, fin)
+			}
+			if sub.Leaf.Kind() == reflect.Interface && levels > 1 && len(cc.Path) < maxDynLen {
+				nests = append(nests, cc)
+			}
+		}
+		if len(nests) > 0 && (len(ends) == 0 || r.Prob(0.3)) {
+			for try := 0; try < 4; try++ {
+				if dc, ok := dynExtend(pi, nests[r.Intn(len(nests))], lt, levels-1); ok {
+					return dc, true
+				}
+			}
+		}
+		if len(ends) == 0 {
+			return base, false
+		}
+		k := ends[r.Intn(len(ends))]
+		if k2 := ends[r.Intn(len(ends))]; len(k2.Path) > len(k.Path) {
+			k = k2
+		}
+		return k, true
+	}
 	pickSource := func(lt reflect.Type, wholeTarget bool) (int, pathCand, bool) {
 		type cand struct {
 			p int
 			c pathCand
 		}
-		var cands []cand
+		var cands, stubs []cand
 		for pi, p := range c.Preds {
 			if p.Whole {
 				continue
@@ -462,20 +643,21 @@ func tryGenCase(r *mon.Rand) *Case {
 				continue
 			}
 			for _, sc := range enumPaths(p.Type, true, maxDepthSrc) {
-				if sc.Dyn {
-					if sc.Leaf != lt && lt != tAny {
-						continue
-					}
-				} else if !assignableStatic(sc.Leaf, lt) {
-					continue
+				if sc.Leaf.Kind() == reflect.Interface && !sc.Nested {
+					stubs = append(stubs, cand{pi, sc})
 				}
-				if sc.IfaceAt >= 0 {
-					key := fmt.Sprintf("%d#%s", pi, joinPath(sc.Path[:sc.IfaceAt]))
-					if have, ok := roles[key]; ok && !roleCompatible(have, sc, lt) {
-						continue
-					}
+				if fin, ok := finish(pi, sc, lt); ok {
+					cands = append(cands, cand{pi, fin})
 				}
-				cands = append(cands, cand{pi, sc})
+			}
+		}
+		// below an interface-typed position: a path that only exists in the dynamic value
+		if len(stubs) > 0 && r.Prob(0.45) {
+			for try := 0; try < 6; try++ {
+				st := stubs[r.Intn(len(stubs))]
+				if dc, ok := dynExtend(st.p, st.c, lt, 2); ok {
+					return st.p, dc, true
+				}
 			}
 		}
 		if len(cands) == 0 {
@@ -491,25 +673,9 @@ func tryGenCase(r *mon.Rand) *Case {
 		}
 		return k.p, k.c, true
 	}
-	noteRole := func(pi int, sc pathCand, lt reflect.Type) {
-		if sc.IfaceAt < 0 {
-			return
-		}
-		key := fmt.Sprintf("%d#%s", pi, joinPath(sc.Path[:sc.IfaceAt]))
-		_, ok := roles[key]
-		switch {
-		case sc.Dyn && sc.Need != nil:
-			roles[key] = sc.Need
-		case sc.Dyn:
-			if !ok {
-				roles[key] = nil
-			}
-		case lt.Kind() != reflect.Interface:
-			roles[key] = lt
-		default:
-			if !ok {
-				roles[key] = nil
-			}
+	noteRole := func(pi int, sc pathCand) {
+		for _, rq := range sc.Roles {
+			roles[roleKey(pi, rq.At)] = rq.Typ
 		}
 	}
 	conflictsWithChosen := func(p []string) bool {
@@ -532,7 +698,7 @@ func tryGenCase(r *mon.Rand) *Case {
 		if whole && len(sc.Path) == 0 {
 			return false
 		}
-		noteRole(pi, sc, lt)
+		noteRole(pi, sc)
 		m := mapping{Pred: pi, From: sc.Path, To: tc.Path, Form: r.Intn(2), src: sc, tgt: tc, lt: lt}
 		c.Maps = append(c.Maps, m)
 		return true
@@ -803,12 +969,14 @@ func genValues(r *mon.Rand, c *Case, roles map[string]reflect.Type) {
 		roots[i] = reflect.New(p.Type).Elem()
 		roots[i].Set(genValue(r, p.Type, 0))
 	}
-	// interface-typed sources feeding a typed target hold a value of exactly that type
+	// interface-typed positions with a role hold a value of exactly that dynamic type (outer positions first)
+	type placedRole struct {
+		pi   int
+		path []string
+		typ  reflect.Type
+	}
+	var prs []placedRole
 	for _, k := range mon.SortedKeys(roles) {
-		need := roles[k]
-		if need == nil {
-			continue
-		}
 		var pi int
 		fmt.Sscanf(k, "%d#", &pi)
 		rest := k[strings.IndexByte(k, '#')+1:]
@@ -816,8 +984,39 @@ func genValues(r *mon.Rand, c *Case, roles map[string]reflect.Type) {
 		if rest != "" {
 			path = strings.Split(rest, ".")
 		}
-		if err := refSet(roots[pi], path, genTyped(r, need)); err != nil {
-			panic(fmt.Sprintf("harness: cannot place typed value: %v", err))
+		prs = append(prs, placedRole{pi, path, roles[k]})
+	}
+	sort.SliceStable(prs, func(i, j int) bool { return len(prs[i].path) < len(prs[j].path) })
+	for _, pr := range prs {
+		if err := srcPlace(roots[pr.pi], pr.path, genTyped(r, pr.typ)); err != nil {
+			panic(fmt.Sprintf("harness: cannot place a %v at %v of predecessor %d: %v", pr.typ, pr.path, pr.pi, err))
+		}
+	}
+	// thinning inside the dynamic values: nil pointers / maps / interfaces and absent keys off the used paths
+	for _, pr := range prs {
+		if !walkable(pr.typ) {
+			continue
+		}
+		for _, sub := range enumPaths(pr.typ, true, 2) {
+			if !r.Prob(0.1) {
+				continue
+			}
+			full := clonePath(pr.path, sub.Path...)
+			onUsed := false
+			for _, m := range c.Maps {
+				if m.Pred == pr.pi && (isPrefix(full, m.From) || isPrefix(m.From, full)) {
+					onUsed = true
+				}
+			}
+			if onUsed {
+				continue
+			}
+			if r.Bool() && deleteKey(roots[pr.pi], full) {
+				continue
+			}
+			if nillable(sub.Leaf) {
+				_ = srcPlace(roots[pr.pi], full, nil)
+			}
 		}
 	}
 	// thinning: nil pointers, nil maps, nil interfaces and absent keys off the used paths
